@@ -3,6 +3,7 @@ package main
 import (
 	"fmt"
 	"go/token"
+	"go/types"
 	"strings"
 
 	"golang.org/x/tools/go/ssa"
@@ -666,6 +667,32 @@ func c11Shapes(c *Ctx) {
 				return false, false
 			})
 			c.verdict(okG, "cmd.MultiStoreWithCache:repair-option", call.Pos(), "RepairableCache only when cache repair is enabled", "RepairableCache is used although cache repair was not enabled")
+		}
+		// the other direction: with repair enabled, every kind of cache is wrapped.  The wrapping
+		// must stay reachable when the cache store is not a plain local directory (the edges on
+		// which a type assertion of the cache to a concrete store type succeeded are removed)
+		typeOK := map[edge]bool{}
+		for _, b := range fn.Blocks {
+			iff := lastIf(b)
+			if iff == nil {
+				continue
+			}
+			cond := stripNot(iff.Cond)
+			ex, isEx := cond.(*ssa.Extract)
+			if !isEx || ex.Index != 1 {
+				continue
+			}
+			if ta, isTA := ex.Tuple.(*ssa.TypeAssert); isTA && ta.CommaOk && !types.IsInterface(ta.AssertedType) {
+				if cond == iff.Cond {
+					typeOK[edge{b, b.Succs[0]}] = true
+				} else {
+					typeOK[edge{b, b.Succs[1]}] = true
+				}
+			}
+		}
+		for _, call := range calls(fn, named("desync.NewRepairableCache")) {
+			r := reachable(fn, typeOK)
+			c.verdict(r[call.(ssa.Instruction).Block()], "cmd.MultiStoreWithCache:repair-any-cache", call.Pos(), "the cache is wrapped for repair whatever kind of store it is", "the cache is wrapped by RepairableCache only when it is of one concrete store type: for every other cache (http, s3, sftp, a de-duplicating wrapper) --cache-repair is silently ignored, an invalid cached chunk fails the request instead of being refetched")
 		}
 	}
 	if fn := c.mustFn("cmd.multiStoreWithRouter"); fn != nil {
